@@ -55,7 +55,7 @@ pub(crate) fn segmentation_scenario_with_hello(kind: Kind, hello: Vec<u8>, hello
             steps.push(Step::SleepMs(SILENCE_MS));
         }
     }
-    Scenario { kind, steps, requests: replies.len(), extra_request: false, label, bad_credentials: false, password: crate::rsim::SSH_PASSWORD.to_string(), big_request: 0, slow_peer: false, ssh_setup: Default::default(), abandon_close: false }
+    Scenario { kind, steps, requests: replies.len(), extra_request: false, label, bad_credentials: false, password: crate::rsim::SSH_PASSWORD.to_string(), big_request: 0, slow_peer: false, ssh_setup: Default::default(), abandon_close: false, final_close: false }
 }
 
 pub(crate) fn oracle_c06(sc: &Scenario, o: &Outcome) -> Verdict {
@@ -183,6 +183,20 @@ fn c06_enumerated(kind: Kind, j: usize) -> Option<Scenario> {
         }
         return Some(segmentation_scenario(kind, &[], &replies, &cuts, format!("backlog of 40 replies, {}", if j == 0 { "one unit" } else { "one unit each" })));
     }
+    j -= 2;
+    // G. SSH: the subsystem writes to its stderr (extended-data packets on the same channel) before a
+    // reply, between two replies, or between two data packets of one reply; none of it belongs to the stream
+    if j < 3 {
+        let replies = vec![r(1, 140), r(2, 150)];
+        let cuts = vec![70, replies[0].len()];
+        let mut sc = segmentation_scenario(kind, &[], &replies, &cuts, format!("stderr output {}", ["before reply 1", "inside reply 1", "between the replies"][j]));
+        // the reply chunks follow the WaitClientMessages step
+        let w = sc.steps.iter().position(|s| matches!(s, Step::WaitClientMessages(_))).unwrap_or(0);
+        let chunk_at: Vec<usize> = sc.steps.iter().enumerate().filter(|(i, s)| *i > w && matches!(s, Step::Chunk(_))).map(|(i, _)| i).collect();
+        let at = chunk_at.get(j).copied().unwrap_or(sc.steps.len());
+        sc.steps.insert(at, Step::SshStderr(b"warning: configuration database is large\n]]>]]>".to_vec()));
+        return Some(sc);
+    }
     None
 }
 
@@ -290,9 +304,11 @@ enum Point {
     BetweenRequestAndReply,
     InsideReply,
     AfterSomeReplies,
+    /// the client has sent <close-session/> (its last request); the peer goes away instead of answering
+    AfterCloseSessionRequest,
 }
 
-const POINTS: [Point; 6] = [Point::BeforeHello, Point::InsideHello, Point::AfterHelloIdle, Point::BetweenRequestAndReply, Point::InsideReply, Point::AfterSomeReplies];
+const POINTS: [Point; 7] = [Point::BeforeHello, Point::InsideHello, Point::AfterHelloIdle, Point::BetweenRequestAndReply, Point::InsideReply, Point::AfterSomeReplies, Point::AfterCloseSessionRequest];
 
 fn close_kinds(kind: Kind) -> &'static [CloseKind] {
     match kind {
@@ -351,6 +367,13 @@ fn disconnect_scenario(kind: Kind, point: Point, outstanding: usize, close: Clos
             steps.push(Step::Chunk(r[..at].to_vec()));
             steps.push(Step::Close(close));
         }
+        Point::AfterCloseSessionRequest => {
+            steps.push(Step::Chunk(hello));
+            // the client's hello and its <close-session/> request
+            steps.push(Step::WaitClientMessages(2));
+            steps.push(Step::Close(close));
+            requests = 0;
+        }
         Point::AfterSomeReplies => {
             steps.push(Step::Chunk(hello));
             steps.push(Step::WaitClientMessages(1 + outstanding));
@@ -361,7 +384,7 @@ fn disconnect_scenario(kind: Kind, point: Point, outstanding: usize, close: Clos
             steps.push(Step::Close(close));
         }
     }
-    let extra = !matches!(point, Point::BeforeHello | Point::InsideHello);
+    let extra = !matches!(point, Point::BeforeHello | Point::InsideHello | Point::AfterCloseSessionRequest);
     Scenario {
         kind,
         steps,
@@ -374,6 +397,7 @@ fn disconnect_scenario(kind: Kind, point: Point, outstanding: usize, close: Clos
         slow_peer: false,
         ssh_setup: Default::default(),
         abandon_close: false,
+        final_close: point == Point::AfterCloseSessionRequest,
     }
 }
 
@@ -383,7 +407,7 @@ fn c07_enumerated(i: usize) -> Option<Scenario> {
         for close in close_kinds(kind) {
             for point in POINTS {
                 let outs: &[usize] = match point {
-                    Point::BeforeHello | Point::InsideHello | Point::AfterHelloIdle => &[0],
+                    Point::BeforeHello | Point::InsideHello | Point::AfterHelloIdle | Point::AfterCloseSessionRequest => &[0],
                     Point::AfterSomeReplies => &[2, 3],
                     _ => &[1, 3],
                 };
@@ -443,6 +467,14 @@ fn oracle_c07(sc: &Scenario, o: &Outcome) -> Verdict {
             }
             Res::Err(_) => {}
         }
+    }
+    if sc.final_close {
+        return match &o.close {
+            Some(Res::Err(_)) => Verdict::Pass,
+            Some(Res::Hang) => Verdict::violation(format!("hang/{t}/close-session"), format!("{}: close() was still pending 5 virtual seconds after the peer had gone away without answering", sc.label)),
+            Some(Res::Ok(_)) => Verdict::violation(format!("success-on-closed-connection/{t}/close-session"), format!("{}: the peer went away without answering <close-session/>, but close() reported success", sc.label)),
+            None => Verdict::violation("harness-error", format!("{t}/{}: close() produced no result", sc.label)),
+        };
     }
     match &o.extra {
         Some(Res::Hang) => Verdict::violation(format!("hang/{t}/subsequent-request"), format!("{}: a request issued after the peer had closed was still pending 5 virtual seconds later", sc.label)),
@@ -524,7 +556,7 @@ pub static C06: PropSpec = PropSpec {
     runs: |t| if t == Tier::Thorough { 300_000 } else { 500 },
     enumerated: |_| 3 * c06_enum_per_kind() as u64,
     run: run_c06,
-    rule: "enumerated per transport (TLS, local CLI, SSH): a two-reply stream with every single cut from 8 bytes before to 8 bytes after each delimiter (hello, reply 1, reply 2), every pair of cuts inside one delimiter, all groupings of 2 and 3 replies into units, one-byte chunks, single-unit replies of 41 sizes around the receive buffer's capacity boundaries, a backlog of 40 pipelined replies (in one unit, or one unit each) that all arrive before the first is collected; seeded: 1-5 replies of 110..9000 bytes, 0-5 cuts (half of them within 8 bytes of a delimiter), message boundaries cut or merged, hello cut as well; one seeded run in ten drops the reading future between two deliveries (the bytes it had taken off the stream must stay with the transport); one seeded run in 25 is the outgoing direction: a request of 70-260 KiB, in half of these runs over a connection with 4 KiB socket buffers to a TLS peer that reads 4 KiB per virtual millisecond - the peer must frame every request exactly once, complete, without further traffic from the client. One chunk = one TLS record / one SSH CHANNEL_DATA / one pipe write, delivered in lock-step under the paused clock; after each completed reply the peer stays silent for 400 virtual ms. Oracle: every request resolves to its own reply, within 100 virtual ms of the delivery of the last byte of its delimiter. Distinct = distinct event-log hash; every run is non-trivial",
+    rule: "enumerated per transport (TLS, local CLI, SSH): a two-reply stream with every single cut from 8 bytes before to 8 bytes after each delimiter (hello, reply 1, reply 2), every pair of cuts inside one delimiter, all groupings of 2 and 3 replies into units, one-byte chunks, single-unit replies of 41 sizes around the receive buffer's capacity boundaries, a backlog of 40 pipelined replies (in one unit, or one unit each) that all arrive before the first is collected, output on the SSH subsystem's stderr (extended data) before, inside and between replies; seeded: 1-5 replies of 110..9000 bytes, 0-5 cuts (half of them within 8 bytes of a delimiter), message boundaries cut or merged, hello cut as well; one seeded run in ten drops the reading future between two deliveries (the bytes it had taken off the stream must stay with the transport); one seeded run in 25 is the outgoing direction: a request of 70-260 KiB, in half of these runs over a connection with 4 KiB socket buffers to a TLS peer that reads 4 KiB per virtual millisecond - the peer must frame every request exactly once, complete, without further traffic from the client. One chunk = one TLS record / one SSH CHANNEL_DATA / one pipe write, delivered in lock-step under the paused clock; after each completed reply the peer stays silent for 400 virtual ms. Oracle: every request resolves to its own reply, within 100 virtual ms of the delivery of the last byte of its delimiter. Distinct = distinct event-log hash; every run is non-trivial",
     components: COMPONENTS,
     assumptions: &["Linux delivers loopback TCP and pipe data synchronously with write(); the standing two-worker re-execution check guards the resulting determinism"],
     watchdog_s: 8,
@@ -539,7 +571,7 @@ pub static C07: PropSpec = PropSpec {
     runs: |t| if t == Tier::Thorough { 8_000 } else { 300 },
     enumerated: |_| c07_enum_count() as u64 + super::c07_proc::scenarios(),
     run: run_c07,
-    rule: "enumerated, job level (15 scenarios): the agent executable in daemon mode (real clock) against FakeJunos on a TLS listener and FakeIrrd on loopback TCP; the router closes instead of, or right after, its reply to request 0-4 of the run (open-configuration, the two pipelined get-configs, load, commit) while the IRRd answers normally or has gone silent (an evaluation is then still in progress when the router goes away); the daemon must report the failed job (and announce its retry) within 10 s of the close. enumerated, session level: SSH server going away instead of answering the subsystem request (channel close / EOF+close / connection dropped); close point {before hello, inside hello, after hello while idle, between request and reply, inside a reply, after some of the replies} x outstanding requests {0, 1, 2, 3} x close kind per transport (TLS: close_notify+FIN, FIN without close_notify, RST; SSH: channel EOF, channel close, EOF+close, TCP FIN, TCP RST; local: EOF on stdout, child killed); seeded: the same space with 1-4 outstanding requests and seeded cut offsets. Oracle: establishment, every pending request and one request issued afterwards complete with an error (a reply that had fully arrived may succeed) within 5 virtual seconds; a client that stops making virtual-time progress is reported by the real-time watchdog as class 'spin'. Every run is non-trivial",
+    rule: "enumerated, job level (15 scenarios): the agent executable in daemon mode (real clock) against FakeJunos on a TLS listener and FakeIrrd on loopback TCP; the router closes instead of, or right after, its reply to request 0-4 of the run (open-configuration, the two pipelined get-configs, load, commit) while the IRRd answers normally or has gone silent (an evaluation is then still in progress when the router goes away); the daemon must report the failed job (and announce its retry) within 10 s of the close. enumerated, session level: the peer going away after the client's close-session request instead of answering it (close() must fail); SSH server going away instead of answering the subsystem request (channel close / EOF+close / connection dropped); close point {before hello, inside hello, after hello while idle, between request and reply, inside a reply, after some of the replies} x outstanding requests {0, 1, 2, 3} x close kind per transport (TLS: close_notify+FIN, FIN without close_notify, RST; SSH: channel EOF, channel close, EOF+close, TCP FIN, TCP RST; local: EOF on stdout, child killed); seeded: the same space with 1-4 outstanding requests and seeded cut offsets. Oracle: establishment, every pending request and one request issued afterwards complete with an error (a reply that had fully arrived may succeed) within 5 virtual seconds; a client that stops making virtual-time progress is reported by the real-time watchdog as class 'spin'. Every run is non-trivial",
     components: COMPONENTS_C07,
     assumptions: &["the spin watchdog reads a real clock (8 s without a virtual-time heartbeat); it can only raise a false alarm if the machine stalls that long"],
     watchdog_s: 8,
